@@ -174,12 +174,12 @@ fn strategy(_tier: Tier) -> BoxedStrategy<Case> {
 }
 
 /// The oracle of DESIGN.md 4.7. Single-glob matching is delegated to globset.
-struct Oracle {
+pub struct Oracle {
     pats: Vec<(bool, globset::GlobMatcher)>,
 }
 
 impl Oracle {
-    fn new(patterns: &[String]) -> Oracle {
+    pub fn new(patterns: &[String]) -> Oracle {
         Oracle {
             pats: patterns
                 .iter()
@@ -213,7 +213,7 @@ impl Oracle {
     }
 
     /// (excluded, excluded only through an ancestor)
-    fn excluded(&self, p: &str) -> (bool, bool) {
+    pub fn excluded(&self, p: &str) -> (bool, bool) {
         if self.matches_one(p) {
             return (true, false);
         }
